@@ -45,6 +45,11 @@ def changes():
         name = "tmp4/" + d.split("/")[-2] + "-" + d.split("/")[-1]
         if os.path.exists(p) and not os.path.exists(os.path.join(VERIF, "seeded", "r4-" + d.split("/")[-2] + "-" + d.split("/")[-1])):
             out.append((name, p, "mutant"))
+    for d in sorted(glob.glob("/tmp/mut5m/C*/[AB]")):
+        p = os.path.join(d, "patch.diff")
+        name = "tmp5/" + d.split("/")[-2] + "-" + d.split("/")[-1]
+        if os.path.exists(p) and not os.path.exists(os.path.join(VERIF, "seeded", "r5-" + d.split("/")[-2] + "-" + d.split("/")[-1])):
+            out.append((name, p, "mutant"))
     for d in sorted(glob.glob("/tmp/mut2/R*/N*")):
         p = os.path.join(d, "patch.diff")
         name = "tmpbenign/" + d.split("/")[-2] + "-" + d.split("/")[-1]
